@@ -18,14 +18,16 @@ ASSUMPTIONS = ['NumPy recurrences on the matricised operator are the reference',
                'inner solves exact: maximal-rank guess, truncation threshold <= 1e-12 (not effective)',
                'normalize=1 only on the Markov family (1-norm of non-negative tensors)']
 CHUNK = 4
-STEPLISTS = {'const1': [1.0], 'const2': [1.0, 1.0], 'vary3': [1.0, 2.0, 0.5]}
+STEPLISTS = {'const1': [1.0], 'const2': [1.0, 1.0], 'vary3': [1.0, 2.0, 0.5],
+             'close3': [1.0, 1.0 + 3e-6, 1.0 + 6e-6],      # consecutive steps that differ only slightly
+             'tiny_fast': [1e-8, 8e-8]}                    # tiny steps on a fast operator (operator scaled by 1e8): same h*A
 
 
 def space(tier):
     q = tier == 'quick'
     return {'orders': [1, 2, 3] if q else [1, 2, 3, 4], 'dims': [2, 3], 'operator ranks': [1, 2], 'families': ['real', 'complex', 'markov'],
             'step lists': STEPLISTS, 'h': [0.1, 0.01], 'normalize': [0, 1, 2], 'hod orders': [2, 3, 4, 6],
-            'adaptive': 'second_method x solver x normalize x time_end{0.5,3} x step_size_first{1e-3,1,10} x error_tol{1e-1,1e-3} x closeness_tol{0.5,0.05}'}
+            'adaptive': 'second_method x solver x normalize x time_end{0.5,3} x step_size_first{1e-3,1,10} x error_tol{1e-1,1e-3,1e3} x closeness_tol{0.5,0.05,1e3} (the lenient values make an overshooting first step get accepted)'}
 
 
 def cases(tier):
@@ -37,7 +39,7 @@ def cases(tier):
             for ro in ((1, 2) if d > 1 else (1,)):
                 for fam in ('real', 'complex', 'markov'):
                     for rx in admissible_ranks(list(dims)):
-                        for sl in (STEPLISTS if not q else ('const2', 'vary3')):
+                        for sl in (STEPLISTS if not q else ('const2', 'vary3', 'close3', 'tiny_fast')):
                             for h in ((0.1, 0.01) if not q else (0.1,)):
                                 yield {'kind': 'schemes', 'dims': list(dims), 'ro': ro, 'fam': fam, 'rx': rx, 'steps': sl, 'h': h}
     for dims in ([2, 2], [3, 2], [2, 2, 2]):
@@ -46,8 +48,8 @@ def cases(tier):
                 for nz in (1, 2):
                     for te in (0.5, 3.0):
                         for s1 in (1e-3, 1.0, 10.0):
-                            for et in (1e-1, 1e-3):
-                                for ct in (0.5, 0.05):
+                            for et in (1e-1, 1e-3, 1e3):
+                                for ct in (0.5, 0.05, 1e3):
                                     yield {'kind': 'adaptive', 'dims': dims, 'sm': sm, 'solver': solver, 'nz': nz, 'te': te, 's1': s1, 'et': et, 'ct': ct}
 
 
@@ -115,6 +117,9 @@ def run_schemes(case, r, rng):
     d = len(dims); n = int(np.prod(dims))
     steps = [h * s for s in STEPLISTS[case['steps']]]
     op = make_op(rng, dims, case['ro'], fam)
+    if case['steps'] == 'tiny_fast':
+        op = 1e8 * op
+        h = steps[0]            # HOD (constant step) then runs with h*A of the usual size as well
     A = mat(op)
     x0t = tt_from(rand_cores(rng, dims, [1] * d, rx, fam == 'complex', 'nonneg' if fam == 'markov' else 'gauss'))
     x0 = vec(x0t)
